@@ -156,6 +156,11 @@ func DoHandler(h http.Handler, method, target string, body []byte, hdr map[strin
 	if body != nil {
 		rd = bytes.NewReader(body)
 	}
+	return DoHandlerReader(h, method, target, rd, hdr, remoteAddr)
+}
+
+// DoHandlerReader is DoHandler with the request body given as a reader (e.g. one that delivers its bytes late).
+func DoHandlerReader(h http.Handler, method, target string, rd io.Reader, hdr map[string]string, remoteAddr string) *Resp {
 	req, err := http.NewRequest(method, "http://sim.test"+target, rd)
 	if err != nil {
 		return &Resp{Status: -1, Header: http.Header{}, Body: []byte(err.Error())}
